@@ -38,7 +38,7 @@ ESSENTIAL = {
     "C02_stream": ["nested-same-name", "small-reads", "corrupt-truncate", "corrupt-flip"],
     "C03_negotiation": ["expect-success", "resumable-state", "dev-unexpected", "dev-malformed", "dev-close", "websocket", "client-write-fault"],
     "C04_tls": ["expect-auth-inside-tls", "reconnect", "cert-wronghost", "cert-expired"],
-    "C05_inbound": ["segmented", "stanza>4KB", "client-ws-sm-on", "component-tcp-sm-off"],
+    "C05_inbound": ["segmented", "stanza>4KB", "client-ws-sm-on", "component-tcp-sm-off", "feed-glued-to-last-negotiation-reply"],
     "C06_router": ["several-routes-accept", "no-route-accepts", "unhandled-iq-request", "first-match-not-first-route", "response-to-pending-request"],
     "C07_iqresult": ["parked-at-yield-point", "duplicate-response", "cancellation"],
     "C07_stress": ["racing-cancellation", "abandoned-receiver"],
